@@ -8,6 +8,7 @@ def setup():
     try:
         build_harness("debug")
         build_harness("nochecks")
+        build_harness("release")
     except ToolError as e:
         log("TOOL-ERROR setup: %s" % e)
         return 2
@@ -25,7 +26,16 @@ def setup():
 def replay(path):
     d = json.load(open(path))
     s = d["scenario"]
-    trace, runs, summ = run_harness([s], "replay_" + os.path.basename(path).replace(".json", ""))
+    if d.get("recorded_only"):
+        os.makedirs(os.path.join(WORK, "runs"), exist_ok=True)
+        trace = os.path.join(WORK, "runs", "replay_" + os.path.basename(path).replace(".json", "") + ".trace.ndjson")
+        with open(trace, "w") as f:
+            for e in d["events"]:
+                f.write(json.dumps(e) + "\n")
+        runs = [dict(d["run"], line=1)]
+    else:
+        trace, runs, summ = run_harness([s], "replay_" + os.path.basename(path).replace(".json", ""))
+    os.makedirs(os.path.join(WORK, "tlc"), exist_ok=True)
     consts = {k: v for k, v in d.get("consts", {}).items()}
     v = validate_trace(trace, runs, d["module"], consts, "replay", parallel=1)
     log("[replay] %s: outcome=%s diverged=%s" % (path, runs[0]["outcome"], runs[0]["diverged"]))
